@@ -206,3 +206,39 @@ pub fn walk_from(store: &MemStore, from: Uuid, max: usize) -> Result<Vec<(Uuid, 
         Ok(out)
     })
 }
+
+/// Hash of the whole store (names, values, creation times, listing order).
+pub fn store_hash(store: &MemStore) -> u64 {
+    // sealed values carry a random nonce: version and snapshot objects are identified by their
+    // name (which contains the version id) and length, everything else by its content
+    let d: Vec<(String, u64, u64, i64)> = store.dump().into_iter().map(|(n, v, c, r)| { let h = value_hash(&n, &v); (n, h, c, r) }).collect();
+    crate::util::h64(&d)
+}
+
+fn value_hash(name: &str, v: &[u8]) -> u64 {
+    if name.starts_with("v-") || name.starts_with("s-") {
+        v.len() as u64
+    } else {
+        crate::util::h64(&v)
+    }
+}
+
+/// Hash of what the answer to the request `label` (as produced by [`req_label`]) can depend on.
+pub fn response_hash(store: &MemStore, label: &str) -> u64 {
+    let mut it = label.split_whitespace();
+    let kind = it.next().unwrap_or("");
+    let name = it.next().unwrap_or("");
+    match kind {
+        "put" | "del" => 0,
+        "get" | "cas" => {
+            let v: Vec<u64> = store.dump().into_iter().filter(|(n, _, _, _)| short_name(n) == name).map(|(n, v, _, _)| value_hash(&n, &v)).collect();
+            crate::util::h64(&(kind, v))
+        }
+        "list" => {
+            let prefix = name.trim_end_matches('*');
+            let v: Vec<(String, u64, i64)> = store.dump().into_iter().filter(|(n, _, _, _)| short_name(n).starts_with(prefix)).map(|(n, _, c, r)| (n, c, r)).collect();
+            crate::util::h64(&("list", v))
+        }
+        _ => store_hash(store),
+    }
+}
